@@ -229,10 +229,6 @@ func (s *Stream) handleForwardTSNForOrdered(ssn uint16) {
 		s.lock.Lock()
 		defer s.lock.Unlock()
 
-		if s.unordered {
-			return // unordered chunks are handled by handleForwardUnordered method
-		}
-
 		// Remove all chunks older than or equal to the new TSN from
 		// the reassemblyQueue.
 		s.reassemblyQueue.forwardTSNForOrdered(ssn)
@@ -251,10 +247,6 @@ func (s *Stream) handleForwardTSNForUnordered(newCumulativeTSN uint32) {
 	func() {
 		s.lock.Lock()
 		defer s.lock.Unlock()
-
-		if !s.unordered {
-			return // ordered chunks are handled by handleForwardTSNOrdered method
-		}
 
 		// Remove all chunks older than or equal to the new TSN from
 		// the reassemblyQueue.
